@@ -502,10 +502,14 @@ def run_c14(w: World, rep: Report):
                               why='' if ok else 'further delegation is decided by a value the certificate does not authenticate')
         _split_layout(w, rep, cx, lock)
     t1_pair(w, rep, 'C14.T1', 'make_delegate_key_lock', 'make_delegate_key_witness')
+    ctor_field_agreement(w, rep, 'C14.T8')
     from .report import depend
     depend(rep, w, 'rules_c02', ('C02.R1', 'C02.R2', 'C02.R3', 'C02.R4', 'C02.R5'), 'C14.TD2',
            'the signature instructions the delegation locks rely on (allowed flags per bit, one message builder, length '
            'guards, result mapping - C02.R2-R5)', floor=10)
+    depend(rep, w, 'rules_c09', ('C09.R2', 'C09.R3'), 'C14.TD9',
+           'the clock thresholds (flags) configured for a run hold inside DEF/CALL, IF, TRY and LOOP bodies too - the time '
+           'checks of these locks run inside such bodies (C09.R2/R3 re-evaluated)', floor=16)
     rep.explanation = (
         'Necessary structural conditions of the delegation locks, decided by typing their templates: every '
         'certificate slice that decides something (delegate key, begin, end, may-delegate) descends from the '
@@ -595,6 +599,9 @@ def run_c15(w: World, rep: Report):
     depend(rep, w, 'rules_c02', ('C02.R1', 'C02.R2', 'C02.R3', 'C02.R4', 'C02.R5'), 'C15.TD2',
            'the signature instruction both paths end in (allowed flags per bit, one message builder, length guards, '
            'result mapping - C02.R2-R5)', floor=10)
+    depend(rep, w, 'rules_c09', ('C09.R2', 'C09.R3'), 'C15.TD9',
+           'the clock thresholds (flags) configured for a run hold inside DEF/CALL, IF, TRY and LOOP bodies too - the time '
+           'checks of these locks run inside such bodies (C09.R2/R3 re-evaluated)', floor=16)
     rep.explanation = (
         'Necessary structural conditions of the hash/point time-locked contracts, decided on their templates: '
         'stack compatibility with the builder-made witnesses, trusted or commitment-authenticated keys, the '
@@ -805,3 +812,46 @@ def _show_env(env) -> str:
         elif k[0] == 'slack':
             out.append('within slack' if v else 'beyond slack (t - now >= threshold > 0)')
     return ', '.join(out)
+
+
+def ctor_field_agreement(w, rep, rule: str):
+    """Positional construction of the package's dataclasses (Certificate, Script, ScriptLeaf ..): a positional
+    argument spelled like a field of the class must land in that field.  (A reordered field list with a
+    positional call site left behind silently stores a value in the wrong field - e.g. the delegation flag
+    in the signature slot.)"""
+    import ast as _ast
+    rep.rule(rule, 'every positional constructor argument named like a dataclass field is passed in that field\'s position; '
+             'no more positional arguments than fields', floor=2)
+    tools = w.repo.module('tools')
+    fields = {}
+    for cname, cd in tools.classes.items():
+        is_dc = any((isinstance(d, _ast.Name) and d.id == 'dataclass') or
+                    (isinstance(d, _ast.Call) and isinstance(d.func, _ast.Name) and d.func.id == 'dataclass')
+                    for d in cd.decorator_list)
+        if is_dc:
+            fields[cname] = [st.target.id for st in cd.body if isinstance(st, _ast.AnnAssign) and isinstance(st.target, _ast.Name)]
+    n = 0
+    for fi in w.repo.all_funcs(['tools']):
+        for c in _ast.walk(fi.node):
+            if not (isinstance(c, _ast.Call) and isinstance(c.func, _ast.Name)):
+                continue
+            cname = c.func.id
+            if cname == 'cls' and fi.cls in fields:
+                cname = fi.cls
+            if cname not in fields or not c.args:
+                continue
+            fl = fields[cname]
+            n += 1
+            why = ''
+            if len(c.args) > len(fl):
+                why = f'{len(c.args)} positional arguments for {len(fl)} fields'
+            for i, a in enumerate(c.args):
+                nm = a.id if isinstance(a, _ast.Name) else (a.attr if isinstance(a, _ast.Attribute) else None)
+                if nm in fl and i < len(fl) and fl[i] != nm and fl.index(nm) != i:
+                    why = (f'argument `{_ast.unparse(a)}` is passed in position {i}, which is field `{fl[i]}` of {cname}; '
+                           f'field `{nm}` is at position {fl.index(nm)} - the value lands in the wrong field')
+                    break
+            rep.check(rule, f'tools.{fi.qualname}|{cname}(...)@{sum(1 for _ in [0])}|{len(c.args)}-positional', not why,
+                      line=c.lineno, file=REL, why=why)
+    if n == 0:
+        rep.check(rule, 'tools|positional-dataclass-constructions', True, trivial=True)
